@@ -711,6 +711,13 @@ def check_C17():
     tlc_must_pass(pem, "ExtractFS.tla emitter (--path)")
     rc6, rep6 = harness_run(vh, ["extract-replay", pem["out"], "@REPORT", car, "hamt=all"], timeout=3400)
     absorb(rep6, "path_option")
+    # entry names that resolve to the output directory itself ("..", "."), and names one suffix away from another entry's
+    zmodel = run_tlc("MCExtractFS", "ExtractFS_rootname_guardTRUE.cfg", timeout=1800)
+    tlc_must_pass(zmodel, "ExtractFS.tla invariant Contained with root-resolving and suffixed names")
+    zem = run_tlc("MCExtractFS", "ExtractFS_rootname_emit.cfg", timeout=2400)
+    tlc_must_pass(zem, "ExtractFS.tla emitter (root-resolving and suffixed names)")
+    rc7, rep7 = harness_run(vh, ["extract-replay", zem["out"], "@REPORT", car, "hamt=all"], timeout=3400)
+    absorb(rep7, "rootname_and_suffix")
     rep["counters"]["file_root_states"] = fmodel["distinct"]
     cov = merge_cov(model, em, rep, {
         "file_roots": "archives of <= 3 top-level items over {file root (extracted as <out>/unknown), file/symlink/directory named 'unknown' or 'a'} x output directory {empty, 'unknown' a symlink "
